@@ -133,6 +133,20 @@ def corrupt_resume_ro(run):
     return [run[0], hist, e]
 
 
+def corrupt_regen(run):
+    """a file created over an existing one: a byte the new writer never wrote shows the previous generation"""
+    for e in run:
+        if e.get("op") == "regen" and e.get("open") == "ok":
+            covered = set()
+            for w in e["writes"]:
+                covered.update(range(w["off"], w["off"] + len(w["data"])))
+            gaps = [i for i in range(len(e["got"])) if i not in covered]
+            if gaps:
+                e["got"][gaps[-1]] = 0xAA
+                return [run[0], e]
+    return None
+
+
 def _scratch():
     """scratch directory of the harness: <work>/C19-tmp (work differs when ZV_REPO selects another tree)"""
     return os.path.join(vlib.WORK, "C19-tmp")
@@ -191,6 +205,7 @@ def run(ctx):
         ctx.selftest_corrupt(TRACE, allf, corrupt_resume_id, "continuation: a put after the reopen re-issued an id in use")
         ctx.selftest_corrupt(TRACE, allf, corrupt_resume_again, "continuation: second reopen differs from the live object")
         ctx.selftest_corrupt(TRACE, allf, corrupt_resume_ro, "continuation: a read-only open accepted an append")
+        ctx.selftest_corrupt(TRACE, allf, corrupt_regen, "file created over an existing one: a never-written byte shows the previous generation")
     finally:
         vlib.sh([os.path.join(vlib.TARGET, "release", BIN), "--mode", "clean", "--scratch", _scratch()])
     cov = ctx.cov
